@@ -185,3 +185,403 @@ fn replay_chunk(cases: &[Value], rep: &mut Report) {
 pub fn replay(cases: &[Value], rep: &mut Report) {
   par_replay(cases, rep, replay_chunk);
 }
+
+// ------------------------------------------------------------------------------------------------------------------
+// SdJwtVc::validate and SdJwtVc::validate_key_binding against spec/SdJwtVcFlow.tla
+// ------------------------------------------------------------------------------------------------------------------
+use identity_core::common::StringOrUrl;
+use identity_core::common::Timestamp;
+use identity_credential::sd_jwt_vc::SdJwtVc;
+use identity_credential::sd_jwt_vc::SdJwtVcBuilder;
+use identity_credential::validator::KeyBindingJWTValidationOptions;
+use identity_eddsa_verifier::EdDSAJwsVerifier;
+use identity_jose::jwk::Jwk;
+use identity_jose::jwk::JwkParamsOkp;
+use identity_jose::jwu::encode_b64;
+use sd_jwt_payload_rework::JsonObject;
+use sd_jwt_payload_rework::JwsSigner;
+use sd_jwt_payload_rework::KeyBindingJwt;
+use sd_jwt_payload_rework::RequiredKeyBinding;
+use sd_jwt_payload_rework::SdJwt;
+use sd_jwt_payload_rework::Sha256Hasher;
+
+struct EdKey {
+  secret: crypto::signatures::ed25519::SecretKey,
+  public: Jwk,
+}
+
+fn ed_key(kid: &str) -> EdKey {
+  let secret = crypto::signatures::ed25519::SecretKey::generate().unwrap();
+  let mut p = JwkParamsOkp::new();
+  p.crv = "Ed25519".into();
+  p.x = encode_b64(secret.public_key().as_ref());
+  let mut public = Jwk::from_params(p);
+  public.set_alg("EdDSA");
+  public.set_kid(kid);
+  EdKey { secret, public }
+}
+
+struct EdSigner<'a>(&'a EdKey);
+
+#[async_trait]
+impl JwsSigner for EdSigner<'_> {
+  type Error = String;
+  async fn sign(&self, header: &JsonObject, payload: &JsonObject) -> Result<Vec<u8>, String> {
+    let h = encode_b64(serde_json::to_vec(header).map_err(|e| e.to_string())?);
+    let p = encode_b64(serde_json::to_vec(payload).map_err(|e| e.to_string())?);
+    let input = format!("{h}.{p}");
+    let sig = self.0.secret.sign(input.as_bytes()).to_bytes();
+    Ok(format!("{input}.{}", encode_b64(sig)).into_bytes())
+  }
+}
+
+#[derive(Default)]
+struct WebResolver(BTreeMap<String, Vec<u8>>);
+impl WebResolver {
+  fn put<V: serde::Serialize>(&mut self, url: &str, v: &V) {
+    self.0.insert(url.to_string(), serde_json::to_vec(v).unwrap());
+  }
+  fn get(&self, key: &str) -> Result<Vec<u8>, ResolverError> {
+    self.0.get(key).cloned().ok_or_else(|| ResolverError::NotFound(key.to_string()))
+  }
+}
+#[async_trait]
+impl Resolver<Url, Vec<u8>> for WebResolver {
+  async fn resolve(&self, input: &Url) -> Result<Vec<u8>, ResolverError> {
+    self.get(input.as_str())
+  }
+}
+#[async_trait]
+impl Resolver<StringOrUrl, Vec<u8>> for WebResolver {
+  async fn resolve(&self, input: &StringOrUrl) -> Result<Vec<u8>, ResolverError> {
+    self.get(&input.to_string())
+  }
+}
+#[async_trait]
+impl Resolver<Url, Value> for WebResolver {
+  async fn resolve(&self, input: &Url) -> Result<Value, ResolverError> {
+    serde_json::from_slice(&self.get(input.as_str())?).map_err(|e| ResolverError::ParsingFailure(e.into()))
+  }
+}
+
+struct FlowWorld {
+  k1: EdKey,
+  k2: EdKey,
+  k3: EdKey,
+  holder: EdKey,
+  other: EdKey,
+}
+
+const ISS: &str = "https://issuer.example";
+const VCT: &str = "https://issuer.example/education_credential";
+
+fn type_metadata() -> Value {
+  json!({
+    "vct": VCT,
+    "name": "Education credential",
+    "schema": {
+      "$schema": "https://json-schema.org/draft/2020-12/schema",
+      "type": "object",
+      "properties": {"name": {"type": "string"}},
+      "required": ["name"]
+    },
+    "claims": [
+      {"path": ["name"], "sd": "allowed"},
+      {"path": ["address"], "sd": "always"}
+    ]
+  })
+}
+
+fn run_vc(case: &Value, w: &FlowWorld) -> Vec<(String, Value, Value)> {
+  let row = &case["row"];
+  let mut diffs = Vec::new();
+  let accept = b(&case["out"]["accept"]);
+  let mut web = WebResolver::default();
+  let jwks = json!({"keys": [w.k1.public, w.k2.public]});
+  let meta_url = format!("{ISS}/.well-known/jwt-vc-issuer/");
+  match s(&row["meta"]) {
+    "inline" => web.put(&meta_url, &json!({"issuer": ISS, "jwks": jwks})),
+    "jwks_uri" => {
+      web.put(&meta_url, &json!({"issuer": ISS, "jwks_uri": format!("{ISS}/jwks")}));
+      web.put(&format!("{ISS}/jwks"), &jwks);
+    }
+    "jwks_uri_missing" => web.put(&meta_url, &json!({"issuer": ISS, "jwks_uri": format!("{ISS}/jwks")})),
+    "other_issuer" => web.put(&meta_url, &json!({"issuer": "https://other.example", "jwks": jwks})),
+    _ => {}
+  }
+  web.put(&format!("{ISS}/keys/k1"), &w.k1.public);
+  web.put("https://elsewhere.example/keys/k3", &w.k3.public);
+  if s(&row["type"]) != "unresolvable" {
+    web.put(&format!("{ISS}/.well-known/vct/education_credential"), &type_metadata());
+  }
+  let kid: Option<String> = match s(&row["kid"]) {
+    "key1" => Some("key1".into()),
+    "key2" => Some("key2".into()),
+    "unknown" => Some("key9".into()),
+    "url_k1" => Some(format!("{ISS}/keys/k1")),
+    "url_elsewhere" => Some("https://elsewhere.example/keys/k3".into()),
+    _ => None,
+  };
+  let signer = match s(&row["signed_with"]) {
+    "K1" => &w.k1,
+    "K2" => &w.k2,
+    _ => &w.k3,
+  };
+  let mut object = json!({"name": "John Doe", "address": {"street_address": "A random street", "number": "3a"}});
+  if s(&row["type"]) == "schema_fails" {
+    object.as_object_mut().unwrap().remove("name");
+    object["given_name"] = json!("John");
+  }
+  let built = (|| -> Result<SdJwtVc, String> {
+    let mut bld = SdJwtVcBuilder::new(object).map_err(|e| e.to_string())?;
+    if let Some(k) = &kid {
+      bld = bld.header(std::iter::once(("kid".to_string(), Value::String(k.clone()))).collect());
+    }
+    bld = bld.vct(VCT.parse::<Url>().unwrap()).iat(Timestamp::now_utc()).iss(ISS.parse().unwrap());
+    if s(&row["policy"]) == "kept" {
+      bld = bld.make_concealable("/address").map_err(|e| e.to_string())?;
+    }
+    block_on(bld.finish(&EdSigner(signer), "EdDSA")).map_err(|e| e.to_string())
+  })();
+  let token = match built {
+    Ok(t) => t,
+    Err(e) => {
+      diffs.push(("~issuance_refused".into(), json!("issued"), json!(e)));
+      return diffs;
+    }
+  };
+  // what a verifier receives: the serialised token
+  let token = match SdJwtVc::parse(&token.to_string()) {
+    Ok(t) => t,
+    Err(e) => {
+      diffs.push(("own_token_does_not_parse".into(), json!("parsed"), json!(e.to_string())));
+      return diffs;
+    }
+  };
+  let r = block_on(token.validate(&web, &EdDSAJwsVerifier::default(), &Sha256Hasher::new()));
+  match (&r, accept) {
+    (Ok(()), false) => diffs.push(("accepted_with_false_condition".into(), json!("rejected"), json!("accepted"))),
+    (Err(e), true) => diffs.push(("~rejected_although_all_hold".into(), json!("accepted"), json!(e.to_string()))),
+    _ => {}
+  }
+  diffs
+}
+
+fn run_kb(case: &Value, w: &FlowWorld) -> Vec<(String, Value, Value)> {
+  let row = &case["row"];
+  let mut diffs = Vec::new();
+  let accept = b(&case["out"]["accept"]);
+  let hasher = Sha256Hasher::new();
+  let built = (|| -> Result<SdJwtVc, String> {
+    let mut bld = SdJwtVcBuilder::new(json!({"name": "John Doe", "address": {"street_address": "A random street", "number": "3a"}})).map_err(|e| e.to_string())?;
+    bld = bld
+      .header(std::iter::once(("kid".to_string(), Value::String("key1".into()))).collect())
+      .vct(VCT.parse::<Url>().unwrap())
+      .iat(Timestamp::now_utc())
+      .iss(ISS.parse().unwrap())
+      .make_concealable("/address")
+      .map_err(|e| e.to_string())?;
+    match s(&row["required"]) {
+      "jwk" => bld = bld.require_key_binding(RequiredKeyBinding::Jwk(serde_json::to_value(&w.holder.public).unwrap().as_object().unwrap().clone())),
+      "kid" => bld = bld.require_key_binding(RequiredKeyBinding::Kid("holder-key".into())),
+      _ => {}
+    }
+    block_on(bld.finish(&EdSigner(&w.k1), "EdDSA")).map_err(|e| e.to_string())
+  })();
+  let token = match built {
+    Ok(t) => t,
+    Err(e) => {
+      diffs.push(("~issuance_refused".into(), json!("issued"), json!(e)));
+      return diffs;
+    }
+  };
+  let now = Timestamp::now_utc().to_unix();
+  let (w0, w1) = (now - 5000, now - 1000);
+  let mut opts = KeyBindingJWTValidationOptions::new();
+  let iat = match s(&row["iat"]) {
+    "before_window" => w0 - 10,
+    "in_window" => w0 + 10,
+    "after_window" => w1 + 10,
+    "past_no_window" => now - 100,
+    _ => now + 100_000,
+  };
+  if matches!(s(&row["iat"]), "before_window" | "in_window" | "after_window") {
+    opts = opts.earliest_issuance_date(Timestamp::from_unix(w0).unwrap()).latest_issuance_date(Timestamp::from_unix(w1).unwrap());
+  }
+  match s(&row["nonce"]) {
+    "same" => opts = opts.nonce("nonce-1"),
+    "different" => opts = opts.nonce("nonce-2"),
+    _ => {}
+  }
+  match s(&row["aud"]) {
+    "same" => opts = opts.aud("https://verifier.example"),
+    "different" => opts = opts.aud("https://another-verifier.example"),
+    _ => {}
+  }
+  let presented = (|| -> Result<SdJwtVc, String> {
+    // this presentation: everything disclosed. Without a KB-JWT it is the token as issued (a presentation of a token that
+    // requires a key binding cannot be finished without one)
+    if s(&row["kb"]) == "absent" {
+      return Ok(token.clone());
+    }
+    // the presentation the KB-JWT is computed over
+    let over: SdJwt = if s(&row["sd_hash"]) == "this_presentation" {
+      SdJwt::from(token.clone())
+    } else {
+      // the same credential with the address concealed: cut the disclosure off the serialised form
+      let full = token.to_string();
+      let mut parts: Vec<&str> = full.split('~').collect();
+      if parts.len() < 3 {
+        return Err("the issued token has no disclosure to drop".into());
+      }
+      parts.remove(1);
+      parts.join("~").parse::<SdJwt>().map_err(|e| e.to_string())?
+    };
+    let signer = if s(&row["kb"]) == "by_holder" { &w.holder } else { &w.other };
+    let kb = block_on(
+      KeyBindingJwt::builder().nonce("nonce-1").aud("https://verifier.example").iat(iat).finish(&over, &hasher, "EdDSA", &EdSigner(signer)),
+    )
+    .map_err(|e| e.to_string())?;
+    let (with_kb, _) = token.clone().into_presentation(&hasher).map_err(|e| e.to_string())?.attach_key_binding_jwt(kb).finish().map_err(|e| e.to_string())?;
+    Ok(with_kb)
+  })();
+  let presented = match presented {
+    Ok(p) => p,
+    Err(e) => {
+      diffs.push(("~presentation_refused".into(), json!("presented"), json!(e)));
+      return diffs;
+    }
+  };
+  let presented = match SdJwtVc::parse(&presented.to_string()) {
+    Ok(t) => t,
+    Err(e) => {
+      diffs.push(("own_presentation_does_not_parse".into(), json!("parsed"), json!(e.to_string())));
+      return diffs;
+    }
+  };
+  let given = if s(&row["given"]) == "holder_key" { &w.holder.public } else { &w.other.public };
+  if std::env::var("VH_JPT_DEBUG").is_ok() {
+    eprintln!("SDVCDBG required={:?} kb={} token={}", presented.required_key_bind(), presented.key_binding_jwt().is_some(), presented);
+  }
+  let r = presented.validate_key_binding(&EdDSAJwsVerifier::default(), given, &hasher, &opts);
+  match (&r, accept) {
+    (Ok(()), false) => diffs.push(("key_binding_accepted_with_false_condition".into(), json!("rejected"), json!("accepted"))),
+    (Err(e), true) => diffs.push(("~key_binding_rejected_although_all_hold".into(), json!("accepted"), json!(e.to_string()))),
+    _ => {}
+  }
+  diffs
+}
+
+fn run_pres(case: &Value, w: &FlowWorld) -> Vec<(String, Value, Value)> {
+  let row = &case["row"];
+  let mut diffs = Vec::new();
+  let accept = b(&case["out"]["accept"]);
+  let hasher = Sha256Hasher::new();
+  let built = (|| -> Result<SdJwtVc, String> {
+    let mut bld = SdJwtVcBuilder::new(json!({"name": "John Doe", "address": {"street_address": "A random street", "number": "3a"}})).map_err(|e| e.to_string())?;
+    bld = bld
+      .header(std::iter::once(("kid".to_string(), Value::String("key1".into()))).collect())
+      .vct(VCT.parse::<Url>().unwrap())
+      .iat(Timestamp::now_utc())
+      .iss(ISS.parse().unwrap())
+      .make_concealable("/address")
+      .map_err(|e| e.to_string())?;
+    if s(&row["required"]) == "kid" {
+      bld = bld.require_key_binding(RequiredKeyBinding::Kid("holder-key".into()));
+    }
+    block_on(bld.finish(&EdSigner(&w.k1), "EdDSA")).map_err(|e| e.to_string())
+  })();
+  let token = match built {
+    Ok(t) => t,
+    Err(e) => {
+      diffs.push(("~issuance_refused".into(), json!("issued"), json!(e)));
+      return diffs;
+    }
+  };
+  // holders receive the serialised token
+  let token = match SdJwtVc::parse(&token.to_string()) {
+    Ok(t) => t,
+    Err(e) => {
+      diffs.push(("own_token_does_not_parse".into(), json!("parsed"), json!(e.to_string())));
+      return diffs;
+    }
+  };
+  let r = (|| -> Result<(SdJwtVc, usize), String> {
+    let mut pb = token.clone().into_presentation(&hasher).map_err(|e| e.to_string())?;
+    match s(&row["conceal"]) {
+      "nothing" => {}
+      c => pb = pb.conceal(&format!("/{c}")).map_err(|e| e.to_string())?,
+    }
+    if b(&row["kb"]) {
+      let kb = block_on(KeyBindingJwt::builder().nonce("n").aud("a").iat(Timestamp::now_utc().to_unix()).finish(
+        &SdJwt::from(token.clone()),
+        &hasher,
+        "EdDSA",
+        &EdSigner(&w.holder),
+      ))
+      .map_err(|e| e.to_string())?;
+      pb = pb.attach_key_binding_jwt(kb);
+    }
+    let (p, removed) = pb.finish().map_err(|e| e.to_string())?;
+    Ok((p, removed.len()))
+  })();
+  match (r, accept) {
+    (Ok(_), false) => diffs.push(("presentation_built_although_impossible".into(), json!("refused"), json!("built"))),
+    (Err(e), true) => diffs.push(("presentation_refused".into(), json!("built"), json!(e))),
+    (Err(_), false) => {}
+    (Ok((p, removed)), true) => {
+      let concealed = s(&row["conceal"]) == "address";
+      if removed != usize::from(concealed) {
+        diffs.push(("removed_disclosures".into(), json!(usize::from(concealed)), json!(removed)));
+      }
+      // what the verifier gets: serialised, parsed again, disclosed
+      match SdJwtVc::parse(&p.to_string()).map_err(|e| e.to_string()).and_then(|v| {
+        let claims_ok = v.claims().iss.as_str().starts_with(ISS) && p == v;
+        v.into_disclosed_object(&hasher).map(|o| (o, claims_ok)).map_err(|e| e.to_string())
+      }) {
+        Err(e) => diffs.push(("presentation_does_not_parse".into(), json!("parsed"), json!(e))),
+        Ok((obj, same)) => {
+          if !same {
+            diffs.push(("presentation_differs_from_its_serialisation".into(), json!("equal"), json!("different")));
+          }
+          if obj.contains_key("address") != b(&case["out"]["address_shows"]) {
+            diffs.push(("address_shows".into(), case["out"]["address_shows"].clone(), json!(obj.contains_key("address"))));
+          }
+          if obj.get("name") != Some(&json!("John Doe")) {
+            diffs.push(("name_lost".into(), json!("John Doe"), json!(obj.get("name"))));
+          }
+        }
+      }
+    }
+  }
+  diffs
+}
+
+fn replay_chunk_flow(cases: &[Value], rep: &mut Report) {
+  let w = FlowWorld { k1: ed_key("key1"), k2: ed_key("key2"), k3: ed_key("key3"), holder: ed_key("holder-key"), other: ed_key("other-key") };
+  for case in cases {
+    note_case(&case["row"]);
+    rep.eval();
+    let out = guarded(|| match s(&case["row"]["part"]) {
+      "vc" => run_vc(case, &w),
+      "kb" => run_kb(case, &w),
+      _ => run_pres(case, &w),
+    });
+    match out {
+      Err(p) => rep.mismatch("sd_jwt_vc_flow/panic", case, json!("no panic"), json!(p), "panic"),
+      Ok(diffs) => {
+        for (k, exp, obs) in diffs {
+          rep.mismatch(&format!("sd_jwt_vc_flow/{k}"), case, exp, obs, "");
+        }
+      }
+    }
+    rep.nontrivial(format!("{}", case["row"]));
+    if b(&case["out"]["accept"]) {
+      rep.sample(case.clone());
+    }
+  }
+}
+
+pub fn replay_flow(cases: &[Value], rep: &mut Report) {
+  par_replay(cases, rep, replay_chunk_flow);
+}
